@@ -106,7 +106,7 @@ def gen_world(rng, policy=None, allow_zero_runtime=False, closed_loop=False, con
             nodes.append(node)
         r = rng.random()
         graph = {"name": "G%d" % g, "graph": nodes}
-        if closed_loop:
+        if closed_loop and (g == 0 or rng.random() < 0.5):
             graph.update({"release_policy": "closed_loop", "concurrency": rng.randint(1, 2), "invocations": rng.randint(1, 4)})
         elif r < 0.6:
             graph.update({"release_policy": "fixed", "period": rng.choice([0, 1, 5, 10, 50]), "invocations": rng.randint(1, 3)})
@@ -136,7 +136,10 @@ def gen_world(rng, policy=None, allow_zero_runtime=False, closed_loop=False, con
         "resolve_conditionals_at_submission": rng.random() < 0.3,
     }
     if any(g.get("release_policy") == "periodic" for g in graphs):
-        flags["loop_timeout"] = rng.choice([200, 60, 120])      # periodic releases run until the horizon
+        flags["loop_timeout"] = rng.choice([100, 60, 120])      # periodic releases run until the horizon
+        for g in graphs:
+            if g.get("release_policy") == "periodic" and g["period"] < 10:
+                g["period"] = rng.choice([10, 25, 50])
     if policy == "EDF":
         flags["enforce_deadlines"] = rng.random() < 0.4
     return {"workload": {"graphs": graphs, "profiles": profiles}, "workers": pools, "flags": flags,
@@ -180,7 +183,7 @@ def gen_planner_world(rng, policy):
         f["enforce_deadlines"] = rng.random() < 0.5
         f["scheduler_time_discretization"] = rng.choice([1, 2, 5])
         f["scheduler_plan_ahead"] = rng.choice([-1, 20])
-    w["wall_limit"] = 60
+    w["wall_limit"] = 240
     return w
 
 
